@@ -13,7 +13,9 @@
 EXTENDS Integers, Sequences
 CONSTANTS MaxA, MaxB, MaxD, Big    \* Big: a few additional larger shapes
 EntryPoints == {"csv", "csv_tensor", "arrow", "parquet", "parquet_tensor"}
-Paths == {"ok", "nodir", "isdir"}        \* writable file / missing directory / a directory
+Paths == {"ok", "nodir", "isdir", "full"}
+  \* writable file / missing directory / a directory / a device that opens and then refuses every byte (the error
+  \* reaches the writer only when its buffer is flushed: a save that lets the writer flush on drop reports success)
 VARIABLES fs, last
 vars == <<fs, last>>
 
